@@ -415,8 +415,13 @@ C15_SETS = {
     "thorough": [("all", gen.ALL_FEATURES, "plain"), ("all-dev", gen.ALL_FEATURES, "dev"), ("none", [], "plain"), ("none-dev", [], "dev"),
                  ("loginterface", ["LOG_INTERFACE"], "plain"), ("all11", gen.ALL_FEATURES, "plain11")]
                 + [("no" + f.lower(), [g for g in gen.ALL_FEATURES if g != f], "plain") for f in gen.ALL_FEATURES]
-                + [("only" + f.lower(), [f], "dev") for f in gen.ALL_FEATURES if f != "VERBOSE_DEBUG_LOG"],
+                + [("only" + f.lower(), [f], "dev") for f in gen.ALL_FEATURES if f != "VERBOSE_DEBUG_LOG"]
+                + [("payvoid", gen.ALL_FEATURES, "plain", dict(payload="void")), ("paybig", gen.ALL_FEATURES, "dev", dict(payload="big")),
+                   ("payodd", [], "plain11", dict(payload="odd")), ("limit9", gen.ALL_FEATURES, "plain", dict(limit=9)),
+                   ("limit9none", [], "dev", dict(limit=9)), ("taskroom", gen.ALL_FEATURES, "plain", dict(taskcap=40)),
+                   ("bottomup", ["PLANS"], "plain", dict(order="BottomUp"))],
 }
+C15_SETS["quick"] += [("paybig", ["SERIALIZATION", "STRUCTURE_REPORT"], "plain", dict(payload="big", taskcap=40))]
 C15_FIXTURES = {"quick": ["comp", "ortho"], "thorough": ["comp", "ortho", "auto", "oroot", "wide"]}
 
 
@@ -431,13 +436,15 @@ def c15_campaign(tier, seed=SEED, log=print):
     shutil.rmtree(cdir, ignore_errors=True)
     os.makedirs(cdir)
     result = dict(key=key, runs=[], errors=[])
-    common = dict(plans=False, utility=False, serial=False, quiet=0.0)
+    common = dict(plans=False, utility=False, serial=False, quiet=0.0, payload=False)
     from concurrent.futures import ThreadPoolExecutor
     todo = []
     for fxname in C15_FIXTURES[tier]:
         base = fixture(fxname)
-        for setname, feats, variant in C15_SETS[tier]:
-            fx = dict(base, name="%s_%s" % (fxname, setname.replace("-", "_")), config=dict(base.get("config", {}), features=list(feats)))
+        for entry in C15_SETS[tier]:
+            setname, feats, variant = entry[:3]
+            over = entry[3] if len(entry) > 3 else {}
+            fx = dict(base, name="%s_%s" % (fxname, setname.replace("-", "_")), config=dict(base.get("config", {}), features=list(feats), **over))
             todo.append((fxname, fx, feats, variant))
 
     def _build(item):
@@ -456,7 +463,9 @@ def c15_campaign(tier, seed=SEED, log=print):
             f = os.path.join(cdir, "%s.ndjson" % fx["name"])
             n, crash = explore.random_walks(fx, exe, f, seed * 4099 + sum(map(ord, fxname)), 500 if tier == "quick" else 3000, profile=common)
             d, res = explore.validate(fx, [f], dev=open_switches(), jobs=1)
-            run = dict(fixture=fx["name"], variant=variant, features=list(feats), files=[f], checked=0, diffs=[], crashes=[], tlc_errors=[], notes={})
+            c = gen.cfg_of(fx)
+            run = dict(fixture=fx["name"], variant=variant, features=list(feats), files=[f], checked=0, diffs=[], crashes=[], tlc_errors=[], notes={},
+                       group="%s/limit%d/%s" % (fxname, c["limit"], c["order"]), payload=c["payload"], limit=c["limit"], taskcap=c["taskcap"])
             if crash:
                 run["crashes"].append(dict(file=f, rc=crash[0], stderr=crash[1][-800:], records=n))
             for r in res:
